@@ -502,3 +502,13 @@ def _m_keep_extends(mod):
         return False
 
     return mod if replace_in_func(mod, "Class.__deepcopy__", edit) else None
+
+
+@SPEC.mutant("add_class moves the class out of its old parent", AST, "R06.12", "Class.add_class")
+def _m_add_moves(mod):
+    def edit(fn):
+        c = fn.args.args[1].arg
+        fn.body.insert(len(fn.body) - 2, ast.parse("if %s.parent is not None and %s.parent is not self:\n    %s.parent.classes.pop(%s.name, None)" % (c, c, c, c)).body[0])
+        return True
+
+    return mod if replace_in_func(mod, "Class.add_class", edit) else None
